@@ -333,3 +333,28 @@ NOT_APPLICABLE = {
            "semantics) over all name pairs; no table, ordering or ownership fact in the source determines it; "
            "bounding it needs concrete or symbolic evaluation, a different technique family",
 }
+
+
+# Rules added after the fourth seeding round (DESIGN.md 11.6); appended to the claim text of their property by gen_manifest.py.
+ADDENDA = {
+    "C02": " (R2.8) no class derived from Part defines a non-identity __eq__ while the package walk recognises visited parts through a set.",
+    "C03": " (R3.5c) a parameter is not handed to a refusing setter of another object after the document was changed; (R3.8) no element is "
+           "inserted from a class attribute / module global without a copy.",
+    "C05": " Hand-written escapers are summarised as their chain of str.replace pairs (the order decides whether the chain re-escapes its own "
+           "output); the name-based numeric exemption is confined to the chart writers.",
+    "C06": " (R6.2 :projection) a used-set built through a partial projection (PackURI.idx) of names that follow a caller's template is reported.",
+    "C07": " (R7.9) a category's position among its siblings is found by identity (an equality lookup with a value-style __eq__ is reported).",
+    "C08": " (R8.8) nothing derived from the mutable content of chart data is memoised in the chart modules.",
+    "C09": " (R9.8) a True/False-keyed table with pass-through default swallows the enum members whose value is 1 or 0.",
+    "C10": " (R10.shared) no Choice object is shared between choice groups with different successors; (R10.creator) a hand-written "
+           "_new_<child>() returns an element with the declared child's tag.",
+    "C12": " getattr(x, <parameter>) is followed through the constant names the call sites pass.",
+    "C13": " (R13.1 :order) the selected placeholders are not re-ordered before they are handed out; (R13.6) left/top/width/height fall back on "
+           "the base placeholder exactly when the placeholder's own value is None.",
+    "C14": " (R14.7) len(), indexing and iteration of the cell / row / column collections range over the same list of elements.",
+    "C15": " (R15.4) ImagePart.scale derives the missing dimension from the native size, never from the pixel counts alone.",
+    "C16": " (R16.2) on the refusing path of Presentation() the package argument is only formatted (no path-only function is applied to a stream).",
+    "C17": " (R17.4) signed local quantities are brought to slide units with round(), not int(x + 0.5).",
+    "C20": " (R20.7) shape.adjustments holds one Adjustment of its own per guide of the preset's avLst, in order (no filter that drops guides, no "
+           "objects shared through a class-level cache).",
+}
